@@ -136,6 +136,12 @@ func (n StructMethodNode) ReturnsError() bool {
 	return sig.Results().Len() == 2
 }
 
+// HasPointerReceiver reports whether the method is declared with a pointer receiver.
+func (n StructMethodNode) HasPointerReceiver() bool {
+	sig := n.method.Type().(*types.Signature)
+	return sig.Recv() != nil && util.IsPtr(sig.Recv().Type())
+}
+
 // ObjNullable indicates whether the node itself is a pointer type so that it can be nil at runtime.
 func (n StructMethodNode) ObjNullable() bool {
 	return util.IsPtr(n.ExprType())
